@@ -453,6 +453,9 @@ def unit_exhaustive(rec: Rec, length: int, secret: str, shard: int, nshards: int
     rec.exhaustive = True
     i = 0
     hops = [(s, t) for s in STATUSES for t in range(len(ORIGINS))]
+    if length >= 4:
+        # length 4 is enumerated over a reduced alphabet: one status per row of the method/body table, four origins
+        hops = [(s, t) for s in (302, 303, 307) for t in (0, 1, 3, 4)]
     for L in range(1, length + 1):
         for combo in itertools.product(hops, repeat=L):
             for start in (0, 3):
@@ -507,6 +510,10 @@ def units(tier: str, seed: int) -> list[Unit]:
         nsh = 1 if tier == "quick" else 6
         for sh in range(nsh):
             us.append(Unit(f"exh-{secret}-{sh}", unit_exhaustive, {"length": length, "secret": secret, "shard": sh, "nshards": nsh}))
+    if tier == "thorough":
+        for secret in ("auth", "start_creds", "jar"):
+            for sh in range(4):
+                us.append(Unit(f"exh4-{secret}-{sh}", unit_exhaustive, {"length": 4, "secret": secret, "shard": sh, "nshards": 4}))
     n = 500 if tier == "quick" else 12000
     for i in range(10):
         us.append(Unit(f"sampled{i}", unit_sampled, {"n": n, "offset": i}))
